@@ -205,6 +205,25 @@ def val_of(z, hint=None):
     return Scalar(z)
 
 
+def deq(a, b):
+    """extensional equality: arrays pointwise, datatypes field-wise (avoids z3's incomplete
+    equality reasoning on lambda-arrays nested in datatypes)."""
+    s = a.sort()
+    if isinstance(s, z3.ArraySortRef):
+        if s.arity() == 1 if hasattr(s, "arity") else True:
+            try:
+                x = fresh("x", s.domain())
+                return z3.ForAll([x], deq(a[x], b[x]))
+            except Exception:
+                return a == b
+        return a == b
+    if isinstance(s, z3.DatatypeSortRef) and s.num_constructors() == 1:
+        c = s.constructor(0)
+        if any(isinstance(c.domain(i), (z3.ArraySortRef, z3.DatatypeSortRef)) for i in range(c.arity())):
+            return z3.And(*[deq(s.accessor(0, i)(a), s.accessor(0, i)(b)) for i in range(c.arity())])
+    return a == b
+
+
 def seteq(a, b, esort):
     x = fresh("x", esort)
     return z3.ForAll([x], a[x] == b[x])
@@ -318,6 +337,18 @@ class Obligation:
         self.size = len(self.hyps) + 1
 
 
+def neg_skolem(goal):
+    """not(goal) with top-level universal quantifiers (also under conjunction/implication) skolemised by hand."""
+    if z3.is_quantifier(goal) and goal.is_forall():
+        vs = [fresh(f"sk_{goal.var_name(i)}", goal.var_sort(i)) for i in range(goal.num_vars())]
+        return neg_skolem(z3.substitute_vars(goal.body(), *reversed(vs)))
+    if z3.is_and(goal):
+        return z3.Or(*[neg_skolem(c) for c in goal.children()])
+    if z3.is_implies(goal):
+        return z3.And(goal.arg(0), neg_skolem(goal.arg(1)))
+    return z3.Not(goal)
+
+
 def solve(hyps, goal, timeout_ms=None, want_model=True):
     """Is hyps |= goal ?  returns (verdict, model_text, secs, backend)."""
     t0 = time.time()
@@ -359,14 +390,18 @@ def solve(hyps, goal, timeout_ms=None, want_model=True):
     for k in (2, 3, 4):
         s3 = z3.Solver()
         s3.set("timeout", 8000)
-        for h in hyps:
-            s3.add(h)
-        for h in distinct_axioms():
-            s3.add(h)
-        s3.add(z3.Not(goal))
         cs = [z3.Const(f"u{i}", Atom) for i in range(k)]
-        x = z3.Const("x!bound", Atom)
-        s3.add(z3.ForAll([x], z3.Or(*[x == c for c in cs])))
+        cache, aterms = {}, {}
+        try:
+            for h in list(hyps) + distinct_axioms() + [neg_skolem(goal)]:
+                s3.add(expand_atoms(h, cs, cache, aterms))
+        except Exception:
+            break
+        # every quantifier over names is now ground; a model restricted to {u_i} is a model of the
+        # original formulas provided every name-valued ground term denotes one of the u_i
+        for c in list(_str_consts.values()) + list(aterms.values()):
+            if not has_quant(c):
+                s3.add(z3.Or(*[c == u for u in cs]))
         if s3.check() == z3.sat:
             try:
                 m = str(s3.model())[:6000]
@@ -374,6 +409,46 @@ def solve(hyps, goal, timeout_ms=None, want_model=True):
                 m = "<model unavailable>"
             return "refuted", f"(universe bounded to {k} names)\n" + m, time.time() - t0, "z3-" + z3.get_version_string() + "(bounded-universe)"
     return "unknown", s.reason_unknown(), time.time() - t0, "z3-" + z3.get_version_string()
+
+
+def expand_atoms(f, consts, cache=None, atom_terms=None):
+    """replace quantifiers over Atom by finite conjunctions/disjunctions over `consts`
+    (equivalent under the axiom that the universe of names is exactly `consts`)."""
+    cache = {} if cache is None else cache
+
+    def rec(e):
+        k = e.get_id()
+        if k in cache:
+            return cache[k][1]
+        if z3.is_quantifier(e):
+            n = e.num_vars()
+            if not e.is_lambda() and all(e.var_sort(i) == Atom for i in range(n)):
+                insts = []
+                for combo in itertools.product(consts, repeat=n):
+                    # de Bruijn: Var(0) is the LAST bound variable; substitute top-down so that
+                    # nested binders are handled by z3's own substitution
+                    insts.append(rec(z3.substitute_vars(e.body(), *reversed(combo))))
+                r = z3.And(*insts) if e.is_forall() else z3.Or(*insts)
+            else:
+                vs = [z3.Const(f"bv!{k}!{i}", e.var_sort(i)) for i in range(n)]
+                b2 = rec(z3.substitute_vars(e.body(), *reversed(vs)))
+                if e.is_lambda():
+                    r = z3.Lambda(vs, b2)
+                elif e.is_forall():
+                    r = z3.ForAll(vs, b2)
+                else:
+                    r = z3.Exists(vs, b2)
+        elif z3.is_app(e) and e.num_args() > 0:
+            ch = [rec(c) for c in e.children()]
+            r = e.decl()(*ch) if not z3.is_and(e) and not z3.is_or(e) else (z3.And(*ch) if z3.is_and(e) else z3.Or(*ch))
+        else:
+            r = e
+        if atom_terms is not None and z3.is_app(r) and r.sort() == Atom and not any(r.eq(c) for c in consts):
+            atom_terms[r.get_id()] = r
+        cache[k] = (e, r)  # keep `e` alive: z3 ast ids are recycled after garbage collection
+        return r
+
+    return rec(f)
 
 
 _hq_cache = {}
@@ -384,14 +459,14 @@ def has_quant(e):
     k = e.get_id()
     r = _hq_cache.get(k)
     if r is not None:
-        return r
+        return r[1]
     if z3.is_quantifier(e):
         r = True
     elif z3.is_app(e):
         r = any(has_quant(c) for c in e.children())
     else:
         r = True
-    _hq_cache[k] = r
+    _hq_cache[k] = (e, r)
     return r
 
 
@@ -821,9 +896,13 @@ class Executor:
     def havoc_value(self, v, tag):
         """fresh unconstrained abstract state, same identity and type."""
         if isinstance(v, Coll):
+            if v.esort is None:
+                raise Unsupported(f"element type of an empty collection could not be inferred at a loop head ({tag})")
             v.mem = fresh(tag, set_sort(v.esort))
             v.items = None
         elif isinstance(v, DictV):
+            if v.ksort is None:
+                raise Unsupported(f"key type of an empty dict could not be inferred at a loop head ({tag})")
             v.dom = fresh(tag + "_dom", set_sort(v.ksort))
             if v.val is not None:
                 v.val = fresh(tag + "_val", v.val.sort())
@@ -1003,12 +1082,18 @@ class Executor:
             e = self.ev(c.args[0], s2)
             if c.func.attr in ("add", "append"):
                 ez = z3_of(e)
+                if T.mem is None:
+                    T.esort, T.mem = ez.sort(), empty_set(ez.sort())
                 if ez.sort() != T.esort:
                     raise Unsupported("accumulator element sort mismatch")
                 y = fresh("y", T.esort)
-                newmem = z3.Lambda([y], z3.Or(T.mem[y], z3.Exists([x], z3.And(it.mem[x], g, y == ez))))
+                newmem = z3.Lambda([y], z3.Or(T.mem[y], z3.Exists([x], z3.And(it.mem[x], g, deq(y, ez)))))
             else:
                 ec = self.as_coll(e, s2)
+                if ec.mem is None:
+                    continue
+                if T.mem is None:
+                    T.esort, T.mem = ec.esort, empty_set(ec.esort)
                 y = fresh("y", T.esort)
                 newmem = z3.Lambda([y], z3.Or(T.mem[y], z3.Exists([x], z3.And(it.mem[x], g, ec.mem[y]))))
             T.mem = newmem
@@ -1143,9 +1228,13 @@ class Executor:
             return c
         zs = [z3_of(i) for i in items]
         esort = zs[0].sort()
-        mem = empty_set(esort)
-        for z in zs:
-            mem = z3.Store(mem, z, True)
+        if isinstance(esort, z3.ArraySortRef) or (isinstance(esort, z3.DatatypeSortRef) and not deq(zs[0], zs[0]).eq(zs[0] == zs[0])):
+            y = fresh("y", esort)
+            mem = z3.Lambda([y], z3.Or(*[deq(y, z) for z in zs]))
+        else:
+            mem = empty_set(esort)
+            for z in zs:
+                mem = z3.Store(mem, z, True)
         return Coll(kind, esort, mem, items=list(items), nodup=(len(items) <= 1))
 
     def ex_Dict(self, node, st):
@@ -1263,9 +1352,7 @@ class Executor:
                 if {a.z.sort(), b.z.sort()} <= {I, R}:
                     return a.z == b.z
                 return z3.BoolVal(False)
-            if isinstance(a.z.sort(), z3.ArraySortRef):
-                return seteq(a.z, b.z, a.z.sort().domain())
-            return a.z == b.z
+            return deq(a.z, b.z)
         if isinstance(a, Coll) and a.kind == "frozenset" and isinstance(b, Scalar):
             return seteq(a.mem, b.z, a.esort)
         if isinstance(b, Coll) and b.kind == "frozenset" and isinstance(a, Scalar):
@@ -1356,6 +1443,10 @@ class Executor:
             return BoundMethod(o, node.attr)
         if isinstance(o, ModuleV):
             return ModuleV(o.name + "." + node.attr)
+        if isinstance(o, Scalar):
+            r = self.lib.scalar_attr(self, o, node.attr, st)
+            if r is not None:
+                return r
         if isinstance(o, (Coll, DictV, Scalar, TupleV)):
             return BoundMethod(o, node.attr)
         if isinstance(o, ClassV):
@@ -1418,7 +1509,7 @@ class Executor:
         if ez.eq(x):
             mem = z3.Lambda([x], z3.And(*conds))
         else:
-            mem = z3.Lambda([y], z3.Exists([x], z3.And(*conds, y == ez)))
+            mem = z3.Lambda([y], z3.Exists([x], z3.And(*conds, deq(y, ez))))
         return Coll(kind, ez.sort(), mem, nodup=(kind != "list") or (it.nodup and ez.eq(x)))
 
     def ex_ListComp(self, node, st):
@@ -1484,6 +1575,20 @@ class Executor:
             return self.coll_method(recv, name, args, kwargs, st)
         if isinstance(recv, DictV):
             return self.dict_method(recv, name, args, kwargs, st)
+        if isinstance(recv, Scalar) and recv.pytype in self.classes:
+            for cname in self.classes[recv.pytype].get("mro", [recv.pytype]):
+                q = f"{cname}.{name}"
+                if q in REGISTRY:
+                    return self.apply_contract(REGISTRY[q], recv, args, kwargs, st)
+                loc = self.classes.get(cname, {}).get("file")
+                if loc:
+                    try:
+                        fdef, _, _ = self.src.find(loc, q)
+                    except Unsupported:
+                        fdef = None
+                    if fdef is not None:
+                        self.inlined.add(q)
+                        return self.inline(Closure(fdef, {}, q), [recv] + list(args), kwargs, st)
         if isinstance(recv, Obj):
             # 1. contract on a repo method  2. library contract  3. inline repo source
             if recv.cls.startswith("super:"):
@@ -1524,7 +1629,10 @@ class Executor:
         old = c.snapshot(self, st, cargs)
         c.havoc(self, st, cargs)
         res = c.make_result(self, st, cargs)
-        st.assume(c.post(self, st, cargs, old, res), f"contract:{c.qual}")
+        pf = c.post(self, st, cargs, old, res)
+        if isinstance(pf, dict):
+            pf = z3.And(*[v for k, v in pf.items() if not k.startswith("as-is")])
+        st.assume(pf, f"contract:{c.qual}")
         return res if res is not None else NONE
 
     def inline(self, clo, args, kwargs, st):
@@ -1681,6 +1789,8 @@ class Executor:
             else:
                 if isinstance(v, Obj) and n in self.classes.get(v.cls, {}).get("mro", [v.cls]):
                     return True
+                if isinstance(v, Scalar) and v.pytype == n:
+                    return True
         return False
 
     # ------------------------------------------------------------------ collection methods
@@ -1818,7 +1928,12 @@ class Executor:
                     n_ret += 1
                     if exc:
                         self.oblige(s, z3.Not(any_exc), "no-spurious-return")
-                    self.oblige(s, contract.post(self, s, s.args, self.cold, res), "post")
+                    pf = contract.post(self, s, s.args, self.cold, res)
+                    if isinstance(pf, dict):
+                        for pname, pform in pf.items():
+                            self.oblige(s, pform, f"post.{pname}")
+                    else:
+                        self.oblige(s, pf, "post")
                 elif o.kind == "raise":
                     cond = exc.get(o.exc)
                     self.oblige(s, cond if cond is not None else z3.BoolVal(False), f"raises.{o.exc}")
